@@ -183,10 +183,18 @@ theorem C20_set (rank : α → α → Rank) (pre post : List (Arg α)) (hp : All
     (∀ vs, buildSet rank (collect (pre ++ [.sequence vs] ++ post)) = clsSetFrom rank vs) ∧
     (∀ items, buildSet rank (collect (pre ++ [.source items] ++ post)) = clsSetFrom rank items) ∧
     (∀ vs, buildSet rank (collect (pre ++ [.collator, .goarray vs] ++ post)) = clsSetFrom rank vs) ∧
+    (∀ vs, buildSet rank (collect (pre ++ [.collator, .sequence vs] ++ post)) = clsSetFrom rank vs) ∧
+    (∀ items, buildSet rank (collect (pre ++ [.collator, .source items] ++ post)) = clsSetFrom rank items) ∧
     buildSet rank (collect pre) = clsSetFrom rank [] := by
   have hempty : clsSetFrom rank ([] : List α) = some (.ok { items := [] }) := by
     simp [clsSetFrom, SetM.makeFrom, SetM.addValues]
-  refine ⟨?_, ?_, ?_, ?_, ?_⟩
+  have two : ∀ a : Arg α, collect (pre ++ [Arg.collator, a] ++ post) = store (store {} .collator) a := by
+    intro a
+    unfold collect
+    rw [List.foldl_append, List.foldl_append, foldl_store_notation _ pre hp]
+    simp only [List.foldl_cons, List.foldl_nil]
+    exact foldl_store_notation _ post hq
+  refine ⟨?_, ?_, ?_, ?_, ?_, ?_, ?_⟩
   · intro vs; rw [collect_with_notations _ _ _ hp hq]
     cases vs with
     | nil => simp [buildSet, store, nonEmpty, hempty]
@@ -194,15 +202,12 @@ theorem C20_set (rank : α → α → Rank) (pre post : List (Arg α)) (hp : All
   · intro vs; rw [collect_with_notations _ _ _ hp hq]; rfl
   · intro items; rw [collect_with_notations _ _ _ hp hq]; rfl
   · intro vs
-    have : collect (pre ++ [Arg.collator, Arg.goarray vs] ++ post) = store (store {} .collator) (.goarray vs) := by
-      unfold collect
-      rw [List.foldl_append, List.foldl_append, foldl_store_notation _ pre hp]
-      simp only [List.foldl_cons, List.foldl_nil]
-      exact foldl_store_notation _ post hq
-    rw [this]
+    rw [two]
     cases vs with
     | nil => simp [buildSet, store, nonEmpty, hempty]
     | cons v vs => rfl
+  · intro vs; rw [two]; rfl
+  · intro items; rw [two]; rfl
   · rw [collect_notations_only _ hp]; simp [buildSet, nonEmpty, hempty]
 
 /-- a parsed set is strictly ascending under the collator; adding its values
